@@ -709,7 +709,7 @@ def const_int_of(facts, b, op, depth=0):
     return None
 
 
-def bool_returns(facts, body, assume, depth=0):
+def bool_returns(facts, body, assume, depth=0, drop_state=None):
     """Set of values ({0}, {1} or {0, 1}) a bool-returning function / closure can return when every call `c` for which
     `assume(c)` is not None returns that value. Follows calls of workspace closures / functions (their own possible results,
     under the same assumption) and the Option combinators `is_some_and` / `is_none_or` / `map_or(default, f)` whose result is
@@ -737,24 +737,27 @@ def bool_returns(facts, body, assume, depth=0):
             continue
         a = assume(c)
         vals = None
-        if a is not None:
+        if a in (0, 1):
             vals = {a}
         else:
+            # a == "some" / "none": the receiver of an Option combinator is assumed to be Some / None
             nm = (c.decl or c.name or "").split("::")[-1]
             res = c.callee.get("res") or c.callee.get("def") or ""
             if nm in ("is_some_and", "is_none_or", "is_ok_and", "is_err_and") and len(c.args) == 2:
                 cb = closure_of(c.args[1])
-                inner = bool_returns(facts, cb, assume, depth + 1) if cb is not None else {0, 1}
-                vals = inner | ({1} if nm == "is_none_or" else {0})
+                inner = bool_returns(facts, cb, assume, depth + 1, drop_state) if cb is not None else {0, 1}
+                absent = {1} if nm == "is_none_or" else {0}
+                vals = inner if a == "some" else (absent if a == "none" else inner | absent)
             elif nm == "map_or" and len(c.args) == 3:
                 cb = closure_of(c.args[2])
-                inner = bool_returns(facts, cb, assume, depth + 1) if cb is not None else {0, 1}
+                inner = bool_returns(facts, cb, assume, depth + 1, drop_state) if cb is not None else {0, 1}
                 d = const_int_of(facts, body, c.args[1])
-                vals = inner | ({d} if d in (0, 1) else {0, 1})
+                absent = {d} if d in (0, 1) else {0, 1}
+                vals = inner if a == "some" else (absent if a == "none" else inner | absent)
             else:
                 cb = facts.body(res) if res else None
                 if cb is not None and cb.crate == body.crate and not cb.is_coroutine and cb.local_ty(0) == "bool":
-                    vals = bool_returns(facts, cb, assume, depth + 1)
+                    vals = bool_returns(facts, cb, assume, depth + 1, drop_state)
         if vals is not None and len(vals) == 1:
             forced[("call", bb)] = ("in", frozenset(vals))
     out = set()
@@ -765,6 +768,8 @@ def bool_returns(facts, body, assume, depth=0):
                 found = True
                 e = dj.expr_of_rvalue(st[2])
                 for stt in dj.states_before_stmt(bb, j):
+                    if drop_state is not None and drop_state(dj, stt):
+                        continue
                     # a state that contradicts a forced call result is not an execution under the assumption
                     if any(stt.get(k) is not None and not in_set(stt.get(k), set(v[1])) and stt.get(k)[0] == "in" for k, v in forced.items()):
                         continue
@@ -778,7 +783,7 @@ def bool_returns(facts, body, assume, depth=0):
             k = ("call", bb)
             # executions that reach this call under the assumption
             sts = [stt for stt in dj.states_before_stmt(bb, len(body.stmts(bb)))
-                   if not any(stt.get(q) is not None and stt.get(q)[0] == "in" and not in_set(stt.get(q), set(v[1])) for q, v in forced.items())]
+                   if not (drop_state is not None and drop_state(dj, stt)) and not any(stt.get(q) is not None and stt.get(q)[0] == "in" and not in_set(stt.get(q), set(v[1])) for q, v in forced.items())]
             if not sts:
                 continue
             if k in forced:
